@@ -297,6 +297,11 @@ def stage_events(program, qual):
         ex.run()
     except sym.Unsupported as u:
         raise AnalysisError(f"{qual}: {u}")
+    # an assert states what its author takes to hold: it is not a branch of the decision.  The walker records it as a path condition; here those
+    # conditions are taken out of the guards again (the assert events themselves stay)
+    asserted = {e[2] for e in ex.events if e[0] == 'assert'}
+    if asserted:
+        ex.events = [((e[0], tuple(g for g in e[1] if g not in asserted)) + tuple(e[2:])) if e[0] != 'assert' else e for e in ex.events]
     return fn, ex
 
 class Decoded:
